@@ -392,7 +392,7 @@ def run_native(s, stage_dir, tier, res):
     res["params"] = params
     defs = ["-D%s=%s" % kv for kv in params.items()]
     exe = os.path.join(wdir, "native.exe")
-    srcs = [os.path.join(VERIF, s["spec"])] + [os.path.join(stage_dir, "plain", x) for x in s.get("link", [])]
+    srcs = [os.path.join(VERIF, s["spec"])] + [os.path.join(VERIF, x) for x in s.get("link_verif", [])] + [os.path.join(stage_dir, "plain", x) for x in s.get("link", [])]
     cc = s.get("cc", "clang")
     cmd = [cc, "-g", "-O1", "-fsanitize=" + s.get("sanitize", "address,undefined"), "-fno-sanitize-recover=undefined", "-DVERIF_ERROR=yaep_error",
            "-D__CPROVER_assigns(...)=", "-D__CPROVER_loop_invariant(...)=", "-D__CPROVER_decreases(...)=",
